@@ -6,6 +6,7 @@ analysed configuration satisfies - or one over a dimension the analysis does not
 part of the crate users may compile was not analysed: reported fail-closed as a shape finding naming the attribute."""
 from ..core import rule
 from ..props import PROPS
+from .common import value_path
 
 # configuration atoms true in each analysed configuration (`test` is false in all of them: the library is analysed as its
 # users compile it)
@@ -171,3 +172,66 @@ def alias_precond(ctx):
                              'does not follow' % (path, f['name'], f['ty'].get('s')), fnkey=path)
     ctx.check(not bad, 'fields', None, '%d fields of %d crate types, none of an interior-mutability or raw-pointer type'
               % (nf, sum(1 for p in facts.adts if p.startswith('crdts::'))), '%d fields with interior mutability' % bad)
+
+
+# provided (defaulted) methods of the std traits crate types implement: an inherent method of that name shadows them too
+STD_PROVIDED = {
+    'PartialEq': ['ne'], 'PartialOrd': ['lt', 'le', 'gt', 'ge'], 'Ord': ['max', 'min', 'clamp'], 'Clone': ['clone_from'],
+    'Hash': ['hash_slice'],
+}
+# inherent methods that legitimately share a name with a trait method of the same type: (type, method) -> reason
+SHADOW_OK = {
+    ('crdts::merkle_reg::Node', 'hash'): 'Node::hash(&self) is the content hash (rule MK-HASH); the derived Hash::hash takes a hasher, so the '
+                                         'two never compete for the same call',
+}
+
+
+def _is_delegation(facts, body, trait_uids):
+    """The inherent method only forwards its parameters, in order, to the trait method of the same name."""
+    from ..interp import interp, cinfo
+    from ..terms import drop_lv
+    it = interp(facts, body)
+    calls = [c for c in it.calls.values() if cinfo(c.cid)['local']]
+    if len(calls) != 1 or cinfo(calls[0].cid)['uid'] not in trait_uids:
+        return False
+    args = [drop_lv(a.val) for a in calls[0].args]
+    return len(args) == body.arg_count and all(value_path(a) == (i + 1, ()) for i, a in enumerate(args)) and len(it.calls) == 1
+
+
+@rule('SHADOW', {p: 'method-call syntax prefers an inherent method over a trait method of the same name: every caller written as '
+                    '`x.merge(..)`, `x.apply(..)`, `x.clone()`, `a.partial_cmp(b)` silently changes meaning, while the rules keep '
+                    'checking the trait impl nobody calls any more'
+                 for p in PROPS}, floor=1, family='COVER')
+def shadow(ctx):
+    """No crate type has an inherent method named like a method of a trait it implements (unless it merely delegates)."""
+    facts = ctx.facts
+    inh, trm = {}, {}
+    local_items = {t['trait']: [i['name'] for i in t.get('items', []) if i.get('kind') == 'Fn'] for t in facts.traits}
+    for im in facts.impls:
+        sk = str(im.get('self_key') or '')
+        if not sk.startswith('crdts::'):
+            continue
+        if im.get('trait'):
+            names = {m.split('::')[-1]: m for m in im['methods']}
+            for n in local_items.get(im['trait'], []) + STD_PROVIDED.get(im['trait'].split('::')[-1], []):
+                names.setdefault(n, None)
+            for n, uid in names.items():
+                trm.setdefault(sk, {}).setdefault(n, []).append((im['trait'], uid))
+        else:
+            for m in im['methods']:
+                inh.setdefault(sk, {})[m.split('::')[-1]] = m
+    n_inh, bad = 0, 0
+    for sk in sorted(inh):
+        for n, uid in sorted(inh[sk].items()):
+            n_inh += 1
+            hit = trm.get(sk, {}).get(n)
+            if not hit or (sk, n) in SHADOW_OK:
+                continue
+            b = facts.by_uid.get(uid)
+            if b is not None and _is_delegation(facts, b, set(u for _, u in hit if u)):
+                continue
+            bad += 1
+            ctx.fail('%s::%s' % (sk.replace('crdts::', ''), n), b, 'inherent method %s::%s has the name of %s::%s, which the type implements: '
+                     '`x.%s(..)` now resolves to the inherent method in every caller' % (sk, n, hit[0][0], n, n), fnkey=sk + '::' + n)
+    ctx.check(not bad, 'inherent-vs-trait', None, '%d inherent methods of crate types, none shadows a method of a trait the type implements '
+              '(%d listed exceptions)' % (n_inh, len(SHADOW_OK)), '%d inherent methods shadow trait methods' % bad)
